@@ -219,14 +219,14 @@ def run_prop(prop, tier, out: Outcome):
                    "no_sketch": bool(a.get("no_sketch")), "handle": "ro" if ev.get("obs", {}).get("ro") else "rw"}
             out.diverge(sig, "query answer is not allowed by Mv2Query: call #%d %s %s -> contract `%s` fails (result %s)"
                         % (li - 1, ev.get("ev"), json.dumps({k: v for k, v in a.items() if k not in ("op",)})[:200], name, json.dumps(ev.get("res"))[:200]),
-                        {"engine": "query", "scenario": [e["args"] for e in evs[:li] if e.get("ev") not in ("reset", "crash")]})
+                        {"engine": "query", "scenario": [e["args"] for e in evs[:li] if e.get("ev") not in ("reset", "crash", "corrupt")]})
     for d in r["deviations"]:
         if DEV_OWNER.get(d["deviation"]) == prop:
             evs = d["events"]
             last = evs[-1] if evs else {}
             out.diverge({"engine": "query", "kind": "deviation", "deviation": d["deviation"], "call": last.get("ev", "?")},
                         "specification deviation %s was needed to explain call #%d %s" % (d["deviation"], len(evs) - 1, json.dumps(last.get("args"))[:160]),
-                        {"engine": "query", "scenario": [e["args"] for e in evs if e.get("ev") not in ("reset", "crash")]})
+                        {"engine": "query", "scenario": [e["args"] for e in evs if e.get("ev") not in ("reset", "crash", "corrupt")]})
     return {
         "states": max(1, r["events"]), "transitions": max(1, r["events"]),
         "traces_validated_against_impl": r["accepted"], "evaluations": r["queries"], "distinct_nontrivial": r["queries"],
